@@ -15,6 +15,8 @@ pub fn instances(tier: &str) -> Vec<String> {
     v.push("agree:n=2".into());
     if tier == "thorough" {
         v.push("agree:n=3".into());
+        v.push("basic:n=4".into()); // 315 pivot paths, ~2 min
+        v.push("lu:n=4".into());
     }
     v
 }
